@@ -1,7 +1,7 @@
 #!/bin/bash
 # usage: runall.sh [tier] [props...]  runs registered quick checks sequentially, prints summary
 TIER=${1:-quick}; shift
-PROPS=${@:-C01 C02 C03 C04 C05 C07 C08 C09 C10 C11 C12 C13 C14 C15 C16 C17 C18}
+PROPS=${@:-C01 C02 C03 C04 C05 C07 C08 C09 C10 C11 C12 C13 C14 C15 C16 C17 C18 C19 C20}
 for p in $PROPS; do
   s=$(date +%s); ./bin/vcheck run -tier $TIER $p > /tmp/runall_$p.log 2>&1; rc=$?; e=$(date +%s)
   echo "$p exit=$rc $((e-s))s $(grep -c '^KNOWN' /tmp/runall_$p.log) known $(grep -c '^VIOLATION' /tmp/runall_$p.log) viol $(grep -c '^INCONCLUSIVE' /tmp/runall_$p.log) inconcl"
